@@ -126,6 +126,9 @@ def set_positions(prog, cls):
     for n in ast.walk(f):
         if isinstance(n, ast.Assign) and isinstance(n.targets[0], ast.Attribute) and src(n.targets[0].value) == 'self':
             v = n.value
+            if isinstance(v, ast.IfExp) and isinstance(v.body, ast.Subscript) and src(v.body.value) == st and \
+                    k(util.canon_test(v.test)) in ('%s<len(%s)' % (k(src(v.body.slice)), st), 'len(%s)>%s' % (st, k(src(v.body.slice)))):
+                v = v.body      # `state[i] if len(state) > i else default`: position i when present
             if isinstance(v, ast.Call) and isinstance(v.func, ast.Attribute) and v.func.attr == 'copy':
                 v = v.func.value
             if isinstance(v, ast.Subscript) and src(v.value) == st:
@@ -155,7 +158,7 @@ def set_positions(prog, cls):
 
 def check_pairs(ctx):
     prog = ctx.prog
-    classes = ['Model', 'LineageModel', 'Schnitz', 'Lineage', 'ExperimentalLineage', 'VolumeCellState', 'LineageVolumeCellState']
+    classes = ['Model', 'LineageModel', 'Schnitz', 'Lineage', 'ExperimentalLineage', 'VolumeCellState', 'DelayVolumeCellState', 'LineageVolumeCellState']
     covered = {}
     for cls in classes:
         prog.cls(cls)
@@ -181,7 +184,7 @@ def check_pairs(ctx):
             if sl == '%s[%d:]' % (st, own):
                 # own fields first, base state after
                 own_range = range(0, own)
-            elif sl in ('%s[:len(%s)-%d]' % (st, st, own), '%s[:-%d]' % (st, own)):
+            elif sl in ('%s[:len(%s)-%d]' % (st, st, own), '%s[:-%d]' % (st, own), '%s[:%d]' % (st, base_n)):
                 own_range = range(base_n, n)
             else:
                 problems.append('base state passed as %s, but this class %s %d field(s)' % (sl, 'prepends' if gp[:base_n] != bgp else 'appends', own))
